@@ -20,7 +20,7 @@ UNITS.append(dict(name='nested', harness='harness/c04_nested.cpp', sources=['rep
                   budget={'quick': 120, 'thorough': 120}, validate=['nested_assign']))
 for u in UNITS: u.setdefault('opts', {}).setdefault('all', {})['max_instr'] = 400000
 BOUNDS = {
-    'quick': 'the C01-C03 history/step harnesses instantiated with a ledger element type (every construction/copy/assignment/destruction checked against a table of live objects, each element owns one heap cell) for all eight container templates, <= 2 operations, <= 4-5 elements; plus arguments owned by one of the container's own elements (tree nodes with a child container: l = l.front().kids for six templates, Array append/resize with a[0].kids[...] at every fill level); plus self-assignment, a.append(a), a.insert(pos,a), append/resize with a reference to an own element across a reallocation, map.insert(map), insert(key,value) with references into the map; engine heap checks: double free, use after free, leak at harness exit',
+    'quick': 'the C01-C03 history/step harnesses instantiated with a ledger element type (every construction/copy/assignment/destruction checked against a table of live objects, each element owns one heap cell) for all eight container templates, <= 2 operations, <= 4-5 elements; plus arguments owned by one of the own elements of the container (tree nodes with a child container: l = l.front().kids for six templates, Array append/resize with a[0].kids[...] at every fill level); plus self-assignment, a.append(a), a.insert(pos,a), append/resize with a reference to an own element across a reallocation, map.insert(map), insert(key,value) with references into the map; engine heap checks: double free, use after free, leak at harness exit',
     'thorough': '<= 3 operations, <= 7 elements',
 }
 OUTSIDE = 'element types with throwing constructors, allocation failure, more elements than the bound'
